@@ -107,11 +107,22 @@ Inductive patch_class :=
 | PcDeleteKnown       (* null for a documented field: the member disappears, defaults apply *)
 | PcDeleteAbsent      (* null for a name the document does not have (e.g. a documented name in
                          another letter case): RFC 7396 names are exact, nothing changes *)
+| PcEmptyObject       (* the patch is {}: nothing changes *)
 | PcNonObject         (* the patch is a scalar or an array: the result is not a configuration *)
 | PcNotJson.          (* the patch is not a JSON text *)
 
 Definition spec_accepts (c : patch_class) : bool :=
   match c with
-  | PcKnownWellTyped | PcDeleteKnown | PcDeleteAbsent => true
+  | PcKnownWellTyped | PcDeleteKnown | PcDeleteAbsent | PcEmptyObject => true
   | PcUnknownField | PcKnownIllTyped | PcNonObject | PcNotJson => false
   end.
+
+(* The document-level patch `null`.  RFC 7396: a non-object patch replaces the target, the
+   result is JSON null - a document without any member.  The code hands it to the strict
+   decoder, which accepts it and sets nothing: the candidate is the configuration in which no
+   member is set (the zero configuration, all documented defaults absent), which the later
+   Validate rejects.  What the property demands of an ACCEPTED null patch is therefore: the
+   candidate carries nothing of the target, i.e. it re-encodes as the zero configuration does.
+   [null_patch_candidate_ok rfc_result zero cand] *)
+Definition null_patch_candidate_ok (rfc_result zero cand : json) : bool :=
+  is_null rfc_result && json_eqb cand zero.
